@@ -1,9 +1,9 @@
 \* emission: every Rotate edge out of every (o, c) and one observation line per (o, c)
-CONSTANTS N = 7  K = 7  BigK = {36, 601, 100003}  MaxLevel = 2
+CONSTANTS N = 7  K = 7  BigK = {36, 601, 100003} AllKz = FALSE  AllSp = FALSE  MaxLevel = 2
 ACTION_CONSTRAINT Emit
 INVARIANT EmitState
 INIT Init
-NEXT Next
+NEXT NextE
 CONSTRAINT Bound
 VIEW View
 INVARIANT TypeOK
